@@ -369,7 +369,9 @@ class FIXNewOrderSingle:
             }
 
         if not status_transitions:
-            raise FIXError(f"No status transition table for {fix_msg_type=}")
+            if raise_on_err:
+                raise FIXError(f"No status transition table for {fix_msg_type=}")
+            return None
 
         s = status_transitions.get(status, status_transitions[None])
         if isinstance(s, dict) and "exec_type" in s:
